@@ -80,8 +80,27 @@ def type_expr(draw, ctx, depth=2):
   raise AssertionError(kind)
 
 
+def split_top(s):
+  """Split a parameter list at top-level commas."""
+  out, cur, depth = [], [], 0
+  for ch in s:
+    if ch in "[(":
+      depth += 1
+    elif ch in "])":
+      depth -= 1
+    if ch == "," and depth == 0:
+      out.append("".join(cur).strip())
+      cur = []
+    else:
+      cur.append(ch)
+  if "".join(cur).strip():
+    out.append("".join(cur).strip())
+  return out
+
+
 @st.composite
-def signature(draw, ctx, name, first=None, depth=2, simple=False):
+def signature(draw, ctx, name, first=None, depth=2, simple=False,
+              mutations=False, body_indent=""):
   """One `def name(...) -> R: ...` line (without decorators/indent)."""
   params = []
   if first:
@@ -133,15 +152,50 @@ def signature(draw, ctx, name, first=None, depth=2, simple=False):
   if params and params[-1] == "/" and first and len(params) == 2:
     params.pop()
   ret = draw(type_expr(ctx, depth))
+  if mutations and params:
+    # pytd's "mutated parameter" syntax: the body assigns the parameter the
+    # type it has after the call
+    cands = [p.split(":")[0].split(" ")[0] for p in params
+             if ":" in p and p[0] not in "*/" and "= ..." not in p and
+             p.split(":")[0] not in ("self", "cls")]
+    if cands and draw(st.integers(0, 9)) < 4:
+      nm = draw(st.sampled_from(cands))
+      return "def %s(%s) -> %s:\n%s    %s = %s" % (
+          name, ", ".join(params), ret, body_indent, nm,
+          draw(type_expr(Ctx(ctx.classes, []), depth)))
   return "def %s(%s) -> %s: ..." % (name, ", ".join(params), ret)
 
 
 @st.composite
-def function_group(draw, ctx, name, first=None, indent="", depth=2):
+def function_group(draw, ctx, name, first=None, indent="", depth=2,
+                   mutations=False, same_params=False):
   n = draw(st.sampled_from([1, 1, 1, 2, 3]))
   lines = []
+  base = None
   for _ in range(n):
-    sig = draw(signature(ctx, name, first=first, depth=depth))
+    sig = draw(signature(ctx, name, first=first, depth=depth,
+                         mutations=mutations, body_indent=indent))
+    if same_params and base is not None and draw(st.booleans()):
+      # reuse the first overload's parameter list (so that overloads differ
+      # only in return type / mutation and can be merged)
+      head = base.split(") -> ")[0]
+      ret = sig.split(") -> ", 1)[1].split(":")[0]
+      plist = head.split("(", 1)[1]
+      cands = [p.split(":")[0] for p in split_top(plist)
+               if ":" in p and "= ..." not in p and p[0] not in "*/" and
+               "[" not in p.split(":")[0] and
+               p.split(":")[0] not in ("self", "cls")]
+      # (parameters whose annotation contains a comma are skipped above
+      #  because the naive split would cut them)
+      cands = [c for c in cands if c.isidentifier()]
+      if cands and draw(st.booleans()):
+        sig = "%s) -> %s:\n%s    %s = %s" % (
+            head, ret, indent, draw(st.sampled_from(cands)),
+            draw(type_expr(Ctx(ctx.classes, []), depth)))
+      else:
+        sig = "%s) -> %s: ..." % (head, ret)
+    if base is None:
+      base = sig
     if n > 1:
       lines.append(indent + "@overload")
     lines.append(indent + sig)
@@ -150,7 +204,7 @@ def function_group(draw, ctx, name, first=None, indent="", depth=2):
 
 @st.composite
 def stub(draw, max_classes=4, max_consts=5, max_funcs=4, depth=2,
-         typevars=True, aliases=True, any_in_consts=True):
+         typevars=True, aliases=True, any_in_consts=True, mutations=False):
   nclasses = draw(st.integers(0, max_classes))
   class_names = ["K%d" % i for i in range(nclasses)]
   tvs = ["_T0", "_T1"] if typevars else []
@@ -201,7 +255,12 @@ def stub(draw, max_classes=4, max_consts=5, max_funcs=4, depth=2,
       head += " ..."
     body.append("\n".join([head] + lines))
   gctx = Ctx(class_names, [], allow_any=any_in_consts)
-  fctx = Ctx(class_names, tvs)
+  ftvs = list(tvs)
+  bound_cls = class_names[0] if class_names else "int"
+  if typevars and draw(st.integers(0, 9)) < 3:
+    # bounded / constrained TypeVars, as pytype emits for cls/self types
+    ftvs += ["_TB", "_TB", "_TC"]
+  fctx = Ctx(class_names, ftvs)
   consts = []
   for i in range(draw(st.integers(0, max_consts))):
     consts.append("x%d: %s" % (i, draw(type_expr(gctx, depth))))
@@ -217,12 +276,13 @@ def stub(draw, max_classes=4, max_consts=5, max_funcs=4, depth=2,
       alias_lines.append("Alias%d = %s" % (i, t))
   funcs = []
   for i in range(draw(st.integers(0, max_funcs))):
-    funcs += draw(function_group(fctx, "f%d" % i, depth=depth))
+    funcs += draw(function_group(fctx, "f%d" % i, depth=depth,
+                                 mutations=mutations, same_params=mutations))
   text = "\n\n".join(["\n".join(alias_lines), "\n".join(consts)] + body +
                      ["\n".join(funcs)])
   used = [n for n in TYPING_NAMES if n in text]
   header = []
-  if "_T0" in text or "_T1" in text:
+  if "_T0" in text or "_T1" in text or "_TB" in text or "_TC" in text:
     if "TypeVar" not in used:
       used.append("TypeVar")
   if used:
@@ -230,4 +290,8 @@ def stub(draw, max_classes=4, max_consts=5, max_funcs=4, depth=2,
   for tv in ("_T0", "_T1"):
     if tv in text:
       header.append("%s = TypeVar('%s')" % (tv, tv))
+  if "_TB" in text:
+    header.append("_TB = TypeVar('_TB', bound=%s)" % bound_cls)
+  if "_TC" in text:
+    header.append("_TC = TypeVar('_TC', int, str)")
   return "\n".join(header) + "\n\n" + text + "\n"
